@@ -259,7 +259,13 @@ macro_rules | `(tactic| mono_peel) => `(tactic| first
   | (refine Mono.trans ?_ (mono_hostAssign _ _ _ _)))
 
 theorem mono_backendDone (w : World) (s s' : Nat) : Mono s w (backendDone w s') := by
-  unfold backendDone; split <;> exact mono_updAux _ _ _ _ (fun _ => Nat.le_refl _)
+  unfold backendDone
+  refine mono_updAux _ _ _ _ (fun a => ?_)
+  unfold doneAux incompleteAux; split
+  · exact Nat.le_refl _
+  · split
+    · exact Nat.le_refl _
+    · split <;> exact Nat.le_refl _
 
 theorem mono_connectionClose (w : World) (s s' : Nat) : Mono s w (connectionClose w s') := by
   unfold connectionClose; dsimp only
@@ -270,7 +276,10 @@ theorem mono_connectionClose (w : World) (s s' : Nat) : Mono s w (connectionClos
 theorem mono_backendError (w : World) (s s' : Nat) : Mono s w (backendError w s').2 := by
   unfold backendError; dsimp only
   refine Mono.trans ?_ (mono_connectionClose _ _ _)
-  split <;> mono_close
+  refine mono_updAux _ _ _ _ (fun a => ?_)
+  unfold errAux incompleteAux; split
+  · exact Nat.le_refl _
+  · split <;> exact Nat.le_refl _
 
 theorem mono_reconnect (w : World) (s s' : Nat) : Mono s w (reconnect w s').2 := by
   unfold reconnect; dsimp only
@@ -724,6 +733,37 @@ theorem backendClose_seen (w : World) (s : Nat) :
       simp [World.auxOf, setHostLoad, setProcLoad, World.updHost, World.updLink, World.updAux, World.updSlot,
         World.updProc, hc]
 
+/-- gw_connection_close() on a request whose response has not begun -/
+theorem connectionClose_seen (w : World) (s : Nat) (hs : (w.slot s).isSome) (hns : (w.auxOf s).started = false) :
+    ((connectionClose w s).auxOf s).handler = false ∧ ((connectionClose w s).auxOf s).started = false ∧
+    ((w.auxOf s).handler = true →
+      ((connectionClose w s).auxOf s).status =
+        (if (w.auxOf s).status < 500 ∧ (w.auxOf s).status ≠ 400 then 500 else (w.auxOf s).status)) ∧
+    ((w.auxOf s).handler = false → ((connectionClose w s).auxOf s).status = (w.auxOf s).status) := by
+  unfold connectionClose
+  dsimp only
+  have B := backendClose_seen w s
+  have L := auxOf_updLink (backendClose w s) s fun l => { l with hctx := false }
+  have hs1 : (((backendClose w s).updLink s fun l => { l with hctx := false }).slot s).isSome := by
+    rw [L.2, B.2.2.2]; exact hs
+  by_cases hh : (w.auxOf s).handler = true
+  · rw [if_pos (by rw [L.1, B.2.2.1]; exact hh)]
+    unfold backendDone
+    have A := auxOf_updAux ((backendClose w s).updLink s fun l => { l with hctx := false }) s doneAux hs1
+    rw [A.1, L.1]
+    have e : doneAux ((backendClose w s).auxOf s) =
+        { (backendClose w s).auxOf s with
+          status := if ((backendClose w s).auxOf s).status < 500 ∧ ((backendClose w s).auxOf s).status ≠ 400
+                    then 500 else ((backendClose w s).auxOf s).status,
+          handler := false } := by
+      unfold doneAux; rw [if_pos (by rw [B.2.1, hns]; rfl)]
+    rw [e]
+    refine ⟨rfl, by simp [B.2.1, hns], fun _ => by simp [B.1], (fun h => by rw [hh] at h; cases h)⟩
+  · have hh' : (w.auxOf s).handler = false := by simpa using hh
+    rw [if_neg (by rw [L.1, B.2.2.1, hh']; simp)]
+    rw [L.1]
+    exact ⟨by rw [B.2.2.1]; exact hh', by rw [B.2.1]; exact hns, (fun h => by rw [hh'] at h; cases h), fun _ => B.1⟩
+
 /-- gw_backend_error() on a request whose response has not begun: handler dropped, status
     an error (≥ 500, or the 400 a failed create_env left) -/
 theorem backendError_seen (w : World) (s : Nat) (hs : (w.slot s).isSome) (hns : (w.auxOf s).started = false) :
@@ -734,25 +774,26 @@ theorem backendError_seen (w : World) (s : Nat) (hs : (w.slot s).isSome) (hns : 
     ((w.auxOf s).handler = false → ((backendError w s).2.auxOf s).status = (w.auxOf s).status) := by
   unfold backendError
   dsimp only
-  rw [if_neg (by simp [hns])]
-  unfold connectionClose
+  have A := auxOf_updAux w s errAux hs
+  have ea : errAux (w.auxOf s) = w.auxOf s := by unfold errAux; simp [hns]
+  have C := connectionClose_seen (w.updAux s errAux) s A.2 (by rw [A.1, ea]; exact hns)
+  rw [A.1, ea] at C
+  exact C
+
+/-- gw_backend_error() after the backend's response headers were parsed but before the response
+    head went out to the client (http_response_backend_incomplete): the partial response is
+    dropped, the handler too, and the client gets 502 -/
+theorem backendError_incomplete_seen (w : World) (s : Nat) (hs : (w.slot s).isSome)
+    (hst : (w.auxOf s).started = true) (hhs : (w.auxOf s).headSent = false) :
+    ((backendError w s).2.auxOf s).handler = false ∧ ((backendError w s).2.auxOf s).started = false ∧
+    ((backendError w s).2.auxOf s).status = 502 := by
+  unfold backendError
   dsimp only
-  have B := backendClose_seen w s
-  have L := auxOf_updLink (backendClose w s) s fun l => { l with hctx := false }
-  have hs1 : (((backendClose w s).updLink s fun l => { l with hctx := false }).slot s).isSome := by
-    rw [L.2, B.2.2.2]; exact hs
-  by_cases hh : (w.auxOf s).handler = true
-  · rw [if_pos (by rw [L.1, B.2.2.1]; exact hh)]
-    unfold backendDone
-    rw [if_neg (by rw [L.1, B.2.1, hns]; simp)]
-    have A := auxOf_updAux ((backendClose w s).updLink s fun l => { l with hctx := false }) s
-      (fun a => { a with status := if a.status < 500 ∧ a.status ≠ 400 then 500 else a.status, handler := false }) hs1
-    rw [A.1, L.1]
-    refine ⟨rfl, by simp [B.2.1, hns], fun _ => by simp [B.1], (fun h => by rw [hh] at h; cases h)⟩
-  · have hh' : (w.auxOf s).handler = false := by simpa using hh
-    rw [if_neg (by rw [L.1, B.2.2.1, hh']; simp)]
-    rw [L.1]
-    exact ⟨by rw [B.2.2.1]; exact hh', by rw [B.2.1]; exact hns, (fun h => by rw [hh'] at h; cases h), fun _ => B.1⟩
+  have A := auxOf_updAux w s errAux hs
+  have ea : errAux (w.auxOf s) = incompleteAux (w.auxOf s) := by unfold errAux; simp [hst, hhs]
+  have C := connectionClose_seen (w.updAux s errAux) s A.2 (by rw [A.1, ea]; rfl)
+  rw [A.1, ea] at C
+  exact ⟨C.1, C.2.1, C.2.2.2 rfl⟩
 
 /-- **giving up in gw_write_error()**: the client gets an error status -/
 theorem writeErrorTail_seen (w : World) (s : Nat) (hs : (w.slot s).isSome) (hns : (w.auxOf s).started = false)
@@ -830,15 +871,13 @@ theorem released_connectionClose {s : Nat} {w : World} {t : Option Nat} (hA : Ac
     · exact Or.inr e
   unfold connectionClose; dsimp only
   split
-  · unfold backendDone; split <;> exact released_updAux _ R1
+  · unfold backendDone; exact released_updAux _ R1
   · exact R1
 
 theorem released_backendError {s : Nat} {w : World} {t : Option Nat} (hA : Acct t w) (ht : TOk t s) :
     Released s (backendError w s).2 := by
   unfold backendError; dsimp only
-  split
-  · exact released_connectionClose (acct_updAux _ _ hA ht.oth)
-  · exact released_connectionClose hA
+  exact released_connectionClose (acct_updAux _ _ hA ht.oth)
 
 theorem released_reconnect {s : Nat} {w : World} {t : Option Nat} (hA : Acct t w) :
     Released s (reconnect w s).2 := by
